@@ -459,15 +459,12 @@ func c15SendJoin(c *mon.Ctx, r *gen.Rand, sc *simScenario, b *simBranch) {
 		if membership != "" {
 			content.Set("membership", ref.S(membership))
 		}
-		authoriserRelevant := s.t.Restricted
-		if authoriserRelevant {
-			via := "@creator:" + c15local
-			if !vec[7] {
-				via = gen.Pick(r, []string{"@admin:elsewhere.example", "not a user id"})
-			}
-			content.Set("join_authorised_via_users_server", ref.S(via))
-		} else if !vec[7] {
-			continue
+		// (the handler looks at join_authorised_via_users_server in every room version: an event naming a user of
+		// another server there is never one the local server should put its signature under)
+		if !vec[7] {
+			content.Set("join_authorised_via_users_server", ref.S(gen.Pick(r, []string{"@admin:elsewhere.example", "not a user id"})))
+		} else if s.t.Restricted {
+			content.Set("join_authorised_via_users_server", ref.S("@creator:"+c15local))
 		}
 		evType := "m.room.member"
 		if !vec[8] {
@@ -555,7 +552,7 @@ func c15Invite(c *mon.Ctx, r *gen.Rand, sc *simScenario, b *simBranch) {
 			Content: []byte(`{"membership":"invite"}`)}
 		if !vec[3] {
 			// something else the inviting server would like the invited server's signature on
-			switch r.Intn(5) {
+			switch r.Intn(6) {
 			case 0:
 				proto.Type, proto.StateKey, proto.Content = "m.room.message", nil, []byte(`{"body":"I, third.example, agree","membership":"invite"}`)
 			case 1:
@@ -564,6 +561,9 @@ func c15Invite(c *mon.Ctx, r *gen.Rand, sc *simScenario, b *simBranch) {
 				proto.Content = []byte(`{"membership":"ban"}`)
 			case 3:
 				proto.Content = []byte(`{"membership":"join"}`)
+			case 4:
+				// everything about it says "invite of the invited user" except its type
+				proto.Type = gen.Pick(r, []string{"m.room.topic", "com.example.custom", "m.room.join_rules"})
 			default:
 				proto.StateKey = strp("@somebodyelse:third.example")
 			}
